@@ -65,6 +65,25 @@ Run(const std::string &sc)
     a.join(); b.join();
     return 0;
   }
+  if (sc == "S_before_SIX_upgrade") {
+    // A holds S first; B queues SIX behind it (compatible), A reads and leaves, B upgrades and writes:
+    // the upgrade must acquire A's section
+    std::thread a([&] {
+      auto g = lock.LockS();
+      SetStage(1);
+      WaitStage(2);
+      sink = payload;
+    });
+    std::thread b([&] {
+      WaitStage(1);
+      auto six = lock.LockSIX();
+      SetStage(2);
+      auto x = six.UpgradeToX();   // returns after A released its shared grant
+      payload = 8;
+    });
+    a.join(); b.join();
+    return 0;
+  }
   if (sc == "downgrade_then_S") {
     // A writes under X and downgrades (must publish); B reads under S while A still holds SIX
     std::thread a([&] {
